@@ -327,6 +327,9 @@ func (l *lockstep) report(umask uint32, sr stepResult, shrinkIt bool) (suppresse
 		if _, ok := c.Rep.KnownSample[id]; !ok {
 			c.Rep.KnownSample[id] = sr.sig
 		}
+		if _, ok := c.Rep.KnownSigs[sr.sig]; ok || len(c.Rep.KnownSigs) < 2000 {
+			c.Rep.KnownSigs[sr.sig]++
+		}
 		return true
 	}
 	h := append([]fsx.Op(nil), l.hist...)
